@@ -280,6 +280,7 @@ structure St where
   treeSet : Bool := false      -- ClustalO `set_guide_tree` was called
   result : Option (List Nat × List Nat) := none   -- (`_alignment` rows in input order, `_order`)
   gap : Option (Int × Int) := none   -- MuscleApp `_gap_open`, `_gap_ext`
+  distSet : Bool := false            -- ClustalO `set_distance_matrix` stored an input matrix in `_dist_matrix`
   deriving DecidableEq, Repr
 
 inductive Res where
@@ -541,13 +542,15 @@ def gapShown (s : St) : String :=
 
 /-- The setters whose effect matters for the life cycle or for a compared value. -/
 def isSetter (m : String) : Bool :=
-  m = "set_exec_dir" || m = "full_matrix_calculation" || m = "set_guide_tree" || m = "set_gap_penalty"
+  m = "set_exec_dir" || m = "full_matrix_calculation" || m = "set_guide_tree" || m = "set_gap_penalty" ||
+  m = "set_distance_matrix"
 
 /-- Effect of an accepted setter (valid arguments). -/
 def setterEffect (s : St) (m : String) : St :=
   if m = "set_exec_dir" then { s with execOther := true }
   else if m = "full_matrix_calculation" then { s with mbed := false }
   else if m = "set_guide_tree" then { s with treeSet := true }
+  else if m = "set_distance_matrix" then { s with distSet := true }
   else { s with gap := some (-10, -10) }     -- `set_gap_penalty(-10.0)` (what the harness passes for `call set_gap_penalty`)
 
 /-- Value of an accepted getter (or of a setter without modelled effect: `None`). -/
@@ -563,7 +566,9 @@ def getterValue (s : St) (m : String) : Res :=
   else if m = "get_exit_code" then .ok (if s.tool = .exit3 then "3" else if s.tool = .sigkill then "-9" else "0")
   else if m = "get_seqtype" then .ok s.seqtype
   else if m = "get_distance_matrix" then
-    -- the fake program writes d(i,j) = |i-j| in input order; the first row is printed
+    -- the fake program writes d(i,j) = |i-j| in input order; the first row is printed.  `evaluate()` reads the program's
+    -- matrix whenever `--full` was requested — also when an *input* matrix had been stored by `set_distance_matrix` (the
+    -- attribute `_dist_matrix` is shared by input and output): the value does not depend on `distSet`
     (if s.mbed then .err .valueError else .ok (Proto.showNats (List.range s.n)))
   else if m = "get_guide_tree" then .ok (showClades s.n)
   else if m = "get_command" then .ok (gapShown s)
